@@ -181,6 +181,8 @@ _NUM_ACTION = _norm(r"""{
 _FLOAT_ACTION = _norm(r"""{ utap_lval.floating = atof(utap_text); return T_FLOATING; }""")
 _ANY_ACTION = _norm(r"""{ utap_error("$Unknown_symbol"); return T_ERROR; }""")
 _STRING_ACTION = _norm(r"""{ strncpy(utap_lval.string, utap_text, MAXLEN); utap_lval.string[MAXLEN - 1] = '\0'; return T_CHARARR; }""")
+# (the same with the length guard that reports over-long literals: a diagnostic for texts beyond the token buffer, nothing else)
+_STRING_ACTION_GUARDED = _norm(r"""{ if (static_cast<size_t>(utap_leng) >= MAXLEN) { utap_error(STRING_TOO_LONG); } strncpy(utap_lval.string, utap_text, MAXLEN); utap_lval.string[MAXLEN - 1] = '\0'; return T_CHARARR; }""")
 _NL_ACTION = _norm(r"""{ tracker.newline(ch, yyleng); if ((syntax & syntax_t::PROPERTY) != 0) return '\n'; }""")
 _CRLF_ACTION = _norm(r"""{ tracker.newline(ch, yyleng / 2); if ((syntax & syntax_t::PROPERTY) != 0) return '\n'; }""")
 _CONT_ACTION = _norm(r"""{ tracker.newline(ch, 1); }""")
@@ -263,7 +265,7 @@ def lexer_rules(repo):
             out.append(("float", "", ""))
         elif pat == "." and na == _ANY_ACTION:
             out.append(("anyChar", "", ""))
-        elif pat == '\\"[^\\"]+\\"' and na == _STRING_ACTION:
+        elif pat == '\\"[^\\"]+\\"' and na in (_STRING_ACTION, _STRING_ACTION_GUARDED):
             out.append(("string", "", ""))
         elif pat == "<<EOF>>" and na == "{return0;}":
             continue
